@@ -12,6 +12,8 @@ oracle : independent of the Lean model: the property itself on scripted runs (ex
 """
 from __future__ import annotations
 
+import contextlib
+import io
 import itertools
 import os
 import shutil
@@ -70,6 +72,21 @@ def small_cases(n):
                 for bs in [None] + list(range(1, n + 2)):
                     for ub in (0, 1):
                         yield mk_case(n, [(o, r * scale) for o, r in zip(outs, ranks)], ub, bs)
+
+
+def witness_cases():
+    """the runs of the three historical witnesses of Properties/C08.lean (C08_witness_*) and their variations; on the tree
+    under test they must satisfy the property"""
+    out = []
+    # batch refill with backups: 20 inputs, batches of 10, six fast tasks, then a timeout round
+    for slow in (10, 7, 30):
+        out.append(mk_case(20, [(1, 1)] * 6 + [(1, slow)] * 4 + [(1, 1)] * 10, True, 10))
+    out.append(mk_case(30, [(1, 1 + (i % 3)) for i in range(30)], True, 10))
+    # a straggler and its backup finishing in the same round: nine fast tasks, original takes 6, backup (launched at 5) takes 1
+    for o9, o10 in ((1, 1), (1, 0), (0, 1), (0, 0)):
+        out.append(mk_case(10, [(1, 1)] * 9 + [(o9, 6), (o10, 1)], True, None))
+        out.append(mk_case(12, [(1, 1)] * 9 + [(o9, 6), (1, 2), (o9, 7), (o10, 1), (o10, 2)], True, None))
+    return out
 
 
 def gen_small(rng):
@@ -334,6 +351,7 @@ def corr(ctx):
         cases.extend(small_cases(2))
         cases.extend(gen_small(ctx.rng) for _ in range(1200))
         cases.extend(gen_big(ctx.rng) for _ in range(250))
+    cases.extend(witness_cases())
     incon = 0
     for i in range(0, len(cases), 4000):
         incon += corr_scripts(ctx, cases[i:i + 4000])
@@ -358,6 +376,14 @@ def oracle_scripts(ctx, n_small, n_big):
         ctx.count({"oracle-script": case, "impl": canon_real(res)}, nontrivial=nontrivial(case, res),
                   kind="oracle:" + kind_of(case, res) + ("+delay" if "consumer_delay" in case else ""))
         check_run(ctx, case, res)
+    for case in witness_cases():
+        for delay in (None, 1):
+            c = dict(case)
+            if delay is not None:
+                c["consumer_delay"] = delay
+            res = run_real(c)
+            ctx.count({"oracle-script": c, "impl": canon_real(res)}, nontrivial=True, kind="oracle:historical-witness")
+            check_run(ctx, c, res)
     # the excluded corner, explicitly (known finding when it fails)
     for ub in (False, True):
         case = mk_case(0, [], ub, 2)
@@ -429,7 +455,8 @@ def run_e2e(case):
         exe = ThreadsExecutor() if case["executor"] == "threads" else ProcessesExecutor()
         out = {"outcome": "ok", "error": None, "equal": None}
         try:
-            r = c.compute(executor=exe, callbacks=[cnt], optimize_graph=False, **kw)
+            with contextlib.redirect_stdout(io.StringIO()):      # cubed prints when it launches a backup
+                r = c.compute(executor=exe, callbacks=[cnt], optimize_graph=False, **kw)
             out["equal"] = bool(np.array_equal(r, np.flip(-an)))
         except BaseException as e:  # noqa
             out["outcome"] = "raised"
@@ -462,13 +489,15 @@ def check_e2e(ctx, case):
     ctx.count({"e2e": case, "impl": {x: out[x] for x in ("outcome", "accesses", "fails")}}, nontrivial=k > 0,
               kind=f"e2e:{case['executor']}:{out['outcome']}")
     bad = []
+    # with real backups (>= 10 tasks, real clocks) a backup of the faulty task may add attempts: only bounds are checked then
+    may_backup = bool(case.get("use_backups")) and case["nchunks"] >= 10
     if k <= R:
         if out["outcome"] != "ok":
             bad.append(f"{k} injected failures <= retries={R} but compute() raised {out['error']}")
         else:
             if not out["equal"]:
                 bad.append("compute() returned values different from NumPy")
-            if out["accesses"] != k + 1:
+            if out["accesses"] != k + 1 and not (may_backup and k + 1 <= out["accesses"] <= k + 2):
                 bad.append(f"{out['accesses']} accesses to the faulty chunk, expected {k + 1}")
             for op, nt in out["num_tasks"].items():
                 if out["events"].get(op, 0) != nt:
@@ -478,13 +507,15 @@ def check_e2e(ctx, case):
             bad.append(f"{k} injected failures > retries={R} but compute() finished normally")
         elif "InjectedIOError" not in (out["error"] or ""):
             bad.append(f"compute() raised {out['error']} instead of the task's error")
-        elif out["accesses"] != R + 1:
+        elif out["accesses"] != R + 1 and not may_backup and case["executor"] == "threads":
+            # the threads wrapper re-raises only after exactly retries+1 attempts (C08_retry_spec); the processes executor
+            # has no wrapper (finding processes-no-retry) — giving up early is not a violation when no attempt could succeed
             bad.append(f"{out['accesses']} attempts on the faulty chunk with retries={R}")
         for op, nt in out["num_tasks"].items():
             if out["events"].get(op, 0) > nt:
                 bad.append(f"op {op}: {out['events'].get(op, 0)} task-end notifications for {nt} tasks")
-    if out["accesses"] > R + 1:
-        bad.append(f"{out['accesses']} attempts on one chunk exceed retries+1={R + 1}")
+    if out["accesses"] > (2 if may_backup else 1) * (R + 1):
+        bad.append(f"{out['accesses']} attempts on one chunk exceed the budget (retries={R})")
     if bad:
         ctx.fail("; ".join(dict.fromkeys(bad)), case, key=classify_e2e(case, out))
 
